@@ -18,27 +18,35 @@ use crate::verif_hooks::Site;
 /// Each is small (fewer than ENUM_SPAN nodes on the current tree); the run at the
 /// largest budget must complete uninterrupted, which the oracle records.
 pub const ENUM_PAIRS: &[(&str, u64)] = &[
-    ("4k3/8/8/8/8/8/4P3/4K3 w - - 0 1", 4),
-    ("8/8/8/3k4/8/3K4/3P4/8 w - - 0 1", 4),
-    ("k7/8/1K6/8/8/8/8/7R w - - 0 1", 3),
+    // the first ENUM_QUICK pairs are also enumerated by the quick tier
+    ("1k6/8/1K6/8/8/8/8/2R5 w - - 10 40", 4),
+    ("8/5k2/8/8/8/8/1p3K2/8 b - - 0 1", 4),
+    ("4k3/8/8/8/8/8/8/4K2R w K - 0 1", 4),
+    ("r3k3/8/8/8/8/8/8/4K3 b q - 0 1", 4),
+    ("6k1/6P1/6K1/8/8/8/8/7r w - - 0 1", 5),
+    ("8/2p5/3p4/KP5r/1R3p1k/8/4P1P1/8 w - - 0 1", 4),
+    ("8/8/8/8/8/5k2/7p/7K w - - 0 1", 7),
+    ("1n2k3/P7/8/8/8/8/7p/4K1N1 w - - 0 1", 4),
+    // thorough only
+    ("4k3/8/8/8/8/8/4P3/4K3 w - - 0 1", 7),
+    ("8/8/8/3k4/8/3K4/3P4/8 w - - 0 1", 7),
+    ("k7/8/1K6/8/8/8/8/7R w - - 0 1", 6),
+    ("6k1/5ppp/8/8/8/8/8/R3K3 w Q - 0 1", 6),
+    ("8/P6k/8/8/8/8/p6K/8 w - - 0 1", 6),
+    ("4r1k1/5ppp/8/8/8/8/5PPP/4R1K1 w - - 0 1", 5),
+    ("rnbqkbnr/pppppppp/8/8/8/8/PPPPPPPP/RNBQKBNR w KQkq - 0 1", 4),
+    ("r3k2r/8/8/8/8/8/8/R3K2R w KQkq - 0 1", 4),
     ("8/5k2/8/8/8/8/1p3K2/8 b - - 0 1", 3),
-    ("6k1/5ppp/8/8/8/8/8/R3K3 w Q - 0 1", 3),
-    ("8/P6k/8/8/8/8/p6K/8 w - - 0 1", 3),
-    ("1k6/8/1K6/8/8/8/8/2R5 w - - 10 40", 3),
-    ("8/8/8/8/8/5k2/7p/7K w - - 0 1", 4),
     ("4k3/8/8/8/8/8/8/4K2R w K - 0 1", 3),
-    ("r3k3/8/8/8/8/8/8/4K3 b q - 0 1", 3),
-    ("6k1/6P1/6K1/8/8/8/8/7r w - - 0 1", 3),
-    ("8/2p5/3p4/KP5r/1R3p1k/8/4P1P1/8 w - - 0 1", 2),
-    ("4r1k1/5ppp/8/8/8/8/5PPP/4R1K1 w - - 0 1", 2),
-    ("rnbqkbnr/pppppppp/8/8/8/8/PPPPPPPP/RNBQKBNR w KQkq - 0 1", 2),
-    ("r3k2r/8/8/8/8/8/8/R3K2R w KQkq - 0 1", 2),
-    ("1n2k3/P7/8/8/8/8/7p/4K1N1 w - - 0 1", 3),
+    ("r1bqkb1r/pppp1ppp/2n2n2/4p2Q/2B1P3/8/PPPP1PPP/RNB1K1NR w KQkq - 4 4", 2),
+    ("r3k2r/p1ppqpb1/bn2pnp1/3PN3/1p2P3/2N2Q1p/PPPBBPPP/R3K2R w KQkq - 0 1", 2),
 ];
-pub const ENUM_SPAN: u64 = 4096;
+pub const ENUM_QUICK: usize = 8;
+pub const ENUM_SPAN: u64 = 3072;
 
-fn enum_case(index: u64) -> Option<(usize, u64)> {
-    let total = ENUM_PAIRS.len() as u64 * ENUM_SPAN;
+fn enum_case(index: u64, thorough: bool) -> Option<(usize, u64)> {
+    let pairs = if thorough { ENUM_PAIRS.len() } else { ENUM_QUICK };
+    let total = pairs as u64 * ENUM_SPAN;
     if index < total {
         Some(((index / ENUM_SPAN) as usize, index % ENUM_SPAN + 1))
     } else {
@@ -54,8 +62,8 @@ pub fn generate(cx: &super::GenCtx) -> Vec<Plan> {
     plan.step_cap = 4_000_000;
     plan.tick_cap = 16_000_000;
     let mut s = vec![];
-    if cx.thorough {
-        if let Some((pi, n)) = enum_case(cx.index) {
+    {
+        if let Some((pi, n)) = enum_case(cx.index, cx.thorough) {
             let (fen, d) = ENUM_PAIRS[pi];
             s.push(Action::send(format!("position fen {fen}")));
             s.push(Action::send(format!("go depth {d} nodes {n}")));
